@@ -201,6 +201,16 @@ where
     }
 }
 
+impl<P> PartialEq for PathBiMap<P>
+where
+    P: Eq + Hash + DeserializeOwned + Serialize,
+{
+    /// Two maps are equal when they map the same paths to the same ids
+    fn eq(&self, other: &Self) -> bool {
+        self.path_to_id == other.path_to_id
+    }
+}
+
 struct PathBiMapVisitor<P>
 where
     P: Eq + Hash + DeserializeOwned + Serialize,
